@@ -45,8 +45,8 @@ PctMatches(pct, k, n) == (pct * n - 10000 * k) \in (0 - n)..n
 ----------------------------------------------------------------------------
 (* 1. property predicates *)
 
-SuccessFamilies == {"dd", "ddweak", "ddsparse", "ddshared", "ddflat"}      \* SYMM: diagonally dominant
-LowestFamiliesSymm == {"dd", "ddweak", "ddsparse", "ddshared", "ddflat"}
+SuccessFamilies == {"dd", "ddweak", "ddsparse", "ddshared", "ddtie", "ddflat"}      \* SYMM: diagonally dominant
+LowestFamiliesSymm == {"dd", "ddweak", "ddsparse", "ddshared", "ddtie", "ddflat"}
 LowestFamiliesHam == {"bse"}             \* HAM: [[A,B],[-B,-A]], A diagonally dominant, A+-B positive definite
 
 PromisedSuccess(B, E) ==
